@@ -47,9 +47,9 @@ META = dict(
             'points: every listed point and the points 1 hour before and '
             'after it inside a 4-day (quick; the first 8 and last 2 listed '
             'points; gregorian and 360day each followed by one other '
-            'calendar; final point none / +P4D) / 12-day (thorough: all listed points, every '
-            'calendar followed by two others, final point also +P40D) '
-            'window, two query orders'],
+            'calendar; final point none / +P4D) window (thorough: every calendar followed by two '
+            'others, final point also +P40D; a 12-day window with all '
+            'points did not finish in 14 minutes), two query orders'],
     stubs=['none'],
     assumptions=['queries at or after the recurrence start for '
                  'get_next_point_on_sequence / get_prev_point on listed '
@@ -144,7 +144,7 @@ def _check(ri, ii, ei, cal, big):
         return True
     icp = P(f'{y:04d}{m:02d}{d:02d}T{h:02d}00Z')
     fcp = None if ENDS[ei] is None else icp + ISO8601Interval(ENDS[ei])
-    hours = WINDOW_H if not big else 12 * 24
+    hours = WINDOW_H
     if 'P1M' in RECS[ri]:
         hours = 100 * 24
     hi = icp + ISO8601Interval(f'PT{hours}H')
@@ -171,7 +171,7 @@ def _check(ri, ii, ei, cal, big):
     queries = []
     one = ISO8601Interval('PT1H')
     for i, p in enumerate(L):
-        if not big and i > 7 and i < len(L) - 2:
+        if i > 7 and i < len(L) - 2:
             continue                  # (quick: both ends of long lists)
         for x in (p - one, p, p + one):
             if lo <= x <= qhi and x not in queries:
